@@ -72,7 +72,11 @@ def adversarial(rng, doc):
     f = gen.gen_file(rng, doc, o)
     keys = [k for k in (doc if isinstance(doc, dict) else {})] or ["a"]
     k = rng.choice(keys)
-    if isinstance(doc, dict) and isinstance(doc.get("Resources"), dict) and rng.random() < 0.7:
+    if isinstance(doc, dict) and "resource_changes" in doc and rng.random() < 0.8:
+        # Terraform-plan-shaped document: aim below, beside and above change.after so the Terraform console view is driven
+        k = rng.choice(["resource_changes[*].change.after.%s" % rng.choice(gen.KEYS[:6]), "resource_changes[*].type", "resource_changes[*].change.before.a",
+                        "resource_changes.*.change.after.*", "resource_changes[0].address", "resource_changes[*].change.after"])
+    elif isinstance(doc, dict) and isinstance(doc.get("Resources"), dict) and rng.random() < 0.7:
         # template-shaped document: aim at resource properties so the template-aware console reporters are driven
         props = sorted({p for r_ in doc["Resources"].values() if isinstance(r_, dict) and isinstance(r_.get("Properties"), dict) for p in r_["Properties"]})
         k = "Resources.*.Properties.%s" % rng.choice(props) if props else "Resources.*.Type"
@@ -219,6 +223,8 @@ def _shard(ctx, rng, ovf):
             doc = {"a": "a" * 40, "l": [{"x": 1}, {"x": "é"}], "m": {"k": {"z": [1, 2]}}, "s": "héllo wörld", "n": 5}
         elif rng.random() < 0.3:
             doc = gen.gen_cfn_doc(rng, nres=rng.randint(1, 3))
+        elif rng.random() < 0.35:
+            doc = gen.gen_tf_doc(rng)
         dtext = json.dumps(doc) if rng.random() < 0.7 else mutate(rng, json.dumps(doc), 1)
         cls, rtext = adversarial(rng, doc)
         case = {"kind": "pair", "rules": rtext, "data": dtext, "shape": cls}
@@ -256,6 +262,45 @@ def _shard(ctx, rng, ovf):
         judge(ctx, "test-spec", res, dict(case, channel="test-spec"), "doc:" + name)
         res = ctx.w.run({"k": "cli", "argv": ["validate", "--payload"], "stdin": dtext})
         judge(ctx, "payload-envelope", res, dict(case, channel="payload-envelope"), "doc:" + name)
+    # ------------------------------------------------ argument combinations: omitted / conflicting / unsupported options end in a usage or diagnostic error
+    if ctx.mine(3):
+        fl = {"r.guard": "rule r {\n    a == 1\n}\n", "d.json": '{"a": 2}', "t.json": '[{"name": "c", "input": {"a": 2}, "expectations": {"rules": {"r": "FAIL"}}}]',
+              "tests/r_tests.json": '[{"name": "c", "input": {"a": 2}, "expectations": {"rules": {"r": "FAIL"}}}]', "p.json": '{"zp": 1}'}
+        R, D, T = ["-r", "{S}/r.guard"], ["-d", "{S}/d.json"], ["-t", "{S}/t.json"]
+        combos = [["validate"] + D, ["validate"] + R, ["validate"] + R + D + ["--payload"], ["validate"] + R + D + ["--structured"], ["validate"] + R + D + ["--structured", "-S", "all", "-o", "json"],
+                  ["validate"] + R + D + ["--structured", "-S", "none"], ["validate"] + R + D + ["-o", "junit"], ["validate"] + R + D + ["-o", "sarif"], ["validate"] + R + D + ["-a", "-m"],
+                  ["validate"] + R + D + ["--structured", "-S", "none", "-o", "json", "-v"], ["validate"] + R + D + ["--structured", "-S", "none", "-o", "json", "-p"],
+                  ["validate"] + R + D + ["-S", "bogus"], ["validate"] + R + D + ["-t", "bogus"], ["validate"] + R + D + ["-o", "bogus"], ["validate"] + R + D + ["-i"], ["validate"] + R + D + ["-i", "{S}/nosuch.json"],
+                  ["validate", "-r"] + D, ["validate", "-r", "{S}", "-d", "{S}"], ["validate", "-r", "{S}/d.json", "-d", "{S}/r.guard"], ["validate", "--payload", "-v", "-p"],
+                  ["validate"] + R + D + ["-S", "pass", "-S", "fail", "-S", "none"], ["validate"] + R + D + D + R + ["-i", "{S}/p.json", "-i", "{S}/p.json"],
+                  ["test"], ["test"] + R, ["test"] + T, ["test"] + R + T + ["-o", "sarif"], ["test"] + R + T + ["-o", "json", "-v"], ["test", "-d", "{S}"] + R, ["test", "-d", "{S}"] + R + T,
+                  ["test", "-d", "{S}/nosuch"], ["test", "-d", "{S}/r.guard"], ["test", "-r", "{S}", "-t", "{S}"], ["test"] + R + ["-t", "{S}"], ["test", "-d", "{S}", "-a", "-m"], ["test"] + R + T + ["-a"], ["test"] + R + T + ["-m", "-o", "yaml"],
+                  ["rulegen"], ["rulegen", "-t", "{S}/nosuch.json"], ["rulegen", "-t", "{S}"], ["rulegen", "-t", "{S}/r.guard"], ["rulegen", "-t", "{S}/d.json", "-o", "{S}/out.guard"],
+                  ["parse-tree"], ["parse-tree", "-r", "{S}/nosuch.guard"], ["parse-tree", "-r", "{S}"], ["parse-tree", "-r", "{S}/r.guard", "-p", "-y"], ["parse-tree", "-r", "{S}/r.guard", "-o", "{S}/out.json"],
+                  ["completions"], ["completions", "--shell", "bash"], ["completions", "--shell", "nosuch"], [], ["nosuch"], ["--version"], ["help"], ["validate", "--help"]]
+        adir = os.path.join(core.SCRATCH, "c08-argv-%d" % os.getpid())
+        try:
+            for rel, content in fl.items():
+                os.makedirs(os.path.dirname(os.path.join(adir, rel)), exist_ok=True)
+                open(os.path.join(adir, rel), "w").write(content)
+            for argv in combos:
+                for stdin in ("", '{"a": 2}', '{"rules": ["rule r { a == 1 }"], "data": ["{}"]}'):
+                    ctx.res.counts["argument_combinations"] += 1
+                    case = {"kind": "argv", "argv": argv, "files": fl, "stdin": stdin}
+                    if argv and argv[0] == "rulegen":
+                        # rulegen may call process::exit itself: only as a real process
+                        code, out, err = core.run_cli([a.replace("{S}", adir) for a in argv], stdin=stdin.encode(), timeout=60)
+                        ctx.res.cases += 1
+                        if code is None or code < 0 or code in (101, 134, 139):
+                            m = re.search(r"panicked at ([^:\s]+:\d+)", err.decode("utf-8", "replace"))
+                            ctx.violation("panic@" + m.group(1) if m else "argv:rulegen:exit-%s" % code, "[process rulegen %s] exit %s: %s" % (argv, code, err.decode("utf-8", "replace")[-300:]), case)
+                        else:
+                            ctx.res.distinct.add(("argv", "rulegen", code))
+                        continue
+                    res = ctx.w.run({"k": "cli", "argv": argv, "files": fl, "stdin": stdin})
+                    judge(ctx, "argv", res, case, "argv:" + (argv[0] if argv else "none"))
+        finally:
+            shutil.rmtree(adir, ignore_errors=True)
     # ------------------------------------------------ real processes: exit statuses, rulegen (may exit from inside), non-UTF-8 files
     sdir = os.path.join(core.SCRATCH, "c08-%d-%d" % (os.getpid(), ctx.shard))
     os.makedirs(sdir, exist_ok=True)
@@ -345,6 +390,11 @@ def replay(case, w):
         finally:
             ovf.close()
         return not any(sigs), "release worker: %s, overflow-checked worker: %s" % tuple(s or "ok" for s in sigs)
+    if case["kind"] == "argv" and case["argv"] and case["argv"][0] == "rulegen":
+        return True, "rulegen argument cases are only run as real processes by the check itself"
+    if case["kind"] == "argv":
+        sig = core.crash_signature(w.run({"k": "cli", "argv": case["argv"], "files": case["files"], "stdin": case["stdin"]}))
+        return not sig, sig or "no crash"
     if case["kind"] == "process":
         sdir = os.path.join(core.SCRATCH, "c08-replay-%d" % os.getpid())
         os.makedirs(sdir, exist_ok=True)
